@@ -26,7 +26,10 @@ BIN = {"add": lambda a, b: a + b, "sub": lambda a, b: a - b, "mul": lambda a, b:
 UNSUPPORTED = {"log": lambda a: sympy.log(a), "Abs": lambda a: sympy.Abs(a), "acos": lambda a: sympy.acos(a), "cosh": lambda a: sympy.cosh(a), "pi": lambda a: sympy.pi * a,
                "E": lambda a: sympy.E + a, "oo": lambda a: sympy.oo * a, "Piecewise": lambda a: sympy.Piecewise((a, a > 0), (1, True)), "Max": lambda a: sympy.Max(a, 1),
                "Derivative": lambda a: sympy.Derivative(sympy.cos(a * X), X), "conjugate": lambda a: sympy.conjugate(a), "Mod": lambda a: sympy.Mod(a, 2), "floor": lambda a: sympy.floor(a),
-               "sign": lambda a: sympy.sign(a), "factorial": lambda a: sympy.factorial(a), "re": lambda a: sympy.re(a), "atan2": lambda a: sympy.atan2(a, 2), "Eq": lambda a: sympy.Eq(a, 1)}
+               "sign": lambda a: sympy.sign(a),
+               # applied UNDEFINED functions - also ones whose names are case variants of supported functions: they are not those functions
+               "fSin": lambda a: sympy.Function("Sin")(a), "fCOS": lambda a: sympy.Function("COS")(a), "fExp": lambda a: sympy.Function("Exp")(a), "fSqrt": lambda a: sympy.Function("SQRT")(a),
+               "fPow": lambda a: sympy.Function("Pow")(a, 2), "fAdd": lambda a: sympy.Function("ADD")(a, 1), "fg": lambda a: sympy.Function("g")(a), "fmul": lambda a: sympy.Function("Mul")(a, a), "factorial": lambda a: sympy.factorial(a), "re": lambda a: sympy.re(a), "atan2": lambda a: sympy.atan2(a, 2), "Eq": lambda a: sympy.Eq(a, 1)}
 
 
 def build(t):
@@ -189,7 +192,7 @@ def unsupported_case(case):
         return {"ok": True, "nt": True, "out": "refused"}
     # if the expression AS SYMPY HOLDS IT still contains a construct outside the supported set (sympy may have evaluated it away: Abs(2) = 2,
     # cos(acos(x)) = x), a result of any kind is "translated to something else" - even a numerically close one such as pi -> 3.14159...
-    bad_nodes = [n for n in sympy.preorder_traversal(e) if isinstance(n, (sympy.NumberSymbol, sympy.log, sympy.Abs, sympy.acos, sympy.asin, sympy.atan, sympy.cosh, sympy.sinh,
+    bad_nodes = [n for n in sympy.preorder_traversal(e) if isinstance(n, (sympy.NumberSymbol, sympy.core.function.AppliedUndef, sympy.log, sympy.Abs, sympy.acos, sympy.asin, sympy.atan, sympy.cosh, sympy.sinh,
                                                                             sympy.Piecewise, sympy.Max, sympy.Min, sympy.Derivative, sympy.conjugate, sympy.re, sympy.im))]
     if bad_nodes:
         return {"ok": False, "msg": "%s contains the unsupported construct %s but was not refused: it came back as %s" % (e, bad_nodes[0], r), "sig": "unsupported:accepted-node"}
